@@ -58,11 +58,75 @@ def _verify_one(args):
         return {"key": key, "status": r.status, "reason": r.reason, "obligations": obls, "paths": r.paths,
                 "solver_time": r.solver_time, "wall": r.wall, "sha256": r.sha256, "inlined": sorted(r.inlined),
                 "used_contracts": sorted(r.used_contracts), "used_trusted": sorted(r.used_trusted),
-                "exits": r.exits, "props": c.props, "cvc5": getattr(r, "by_backend", {}).get("cvc5", 0)}
+                "exits": r.exits, "props": c.props, "cvc5": getattr(r, "by_backend", {}).get("cvc5", 0),
+                "xc": {k[3:]: v for k, v in getattr(r, "by_backend", {}).items() if k.startswith("xc_")}}
     except Exception:
         return {"key": key, "status": "error", "reason": traceback.format_exc(), "obligations": {}, "paths": 0,
                 "solver_time": 0, "wall": 0, "sha256": "", "inlined": [], "used_contracts": [], "used_trusted": [],
                 "exits": {}, "props": []}
+
+
+def _lost(key, why):
+    return {"key": key, "status": "error", "reason": why, "obligations": {}, "paths": 0, "solver_time": 0, "wall": 0,
+            "sha256": "", "inlined": [], "used_contracts": [], "used_trusted": [], "exits": {}, "props": []}
+
+
+def _child(conn, task):
+    try:
+        conn.send(_verify_one(task))
+    except BaseException:
+        try:
+            conn.send(_lost(task[0], traceback.format_exc()))
+        except Exception:
+            pass
+    finally:
+        conn.close()
+
+
+def run_tasks(tasks, jobs, wall_limit=1500, retries=2):
+    """One forked process per contract (the index and the specs are loaded once, before forking).  A solver crash
+    (libz3 can segfault) or a hang loses only that process: the contract is retried, then reported as a checker
+    error - never as a verdict."""
+    ctx = mp.get_context("fork")
+    pending = [(t, 0) for t in tasks]
+    running = {}          # key -> (proc, conn, task, attempt, t0)
+    done = {}
+    while pending or running:
+        while pending and len(running) < max(1, jobs):
+            task, attempt = pending.pop(0)
+            pc, cc = ctx.Pipe(duplex=False)
+            p = ctx.Process(target=_child, args=(cc, task), daemon=True)
+            p.start()
+            cc.close()
+            running[task[0]] = (p, pc, task, attempt, time.time())
+        time.sleep(0.02)
+        for key in list(running):
+            p, pc, task, attempt, t0 = running[key]
+            res = None
+            if pc.poll():
+                try:
+                    res = pc.recv()
+                except (EOFError, OSError):
+                    res = None
+                p.join(5)
+            elif p.is_alive() and time.time() - t0 < wall_limit:
+                continue
+            if res is None:
+                why = "exit code %s" % p.exitcode if not p.is_alive() else "no result within %d s" % wall_limit
+                if p.is_alive():
+                    p.kill()
+                p.join(5)
+                pc.close()
+                del running[key]
+                if attempt + 1 <= retries:
+                    pending.append((task, attempt + 1))
+                    continue
+                res = _lost(key, "verifier process lost (%s), %d attempts" % (why, attempt + 1))
+            else:
+                pc.close()
+                del running[key]
+            done[key] = res
+    return [done[t[0]] for t in tasks]
 
 
 def load_known():
@@ -72,6 +136,15 @@ def load_known():
     return json.load(open(p)).get("findings", [])
 
 
+def load_baseline(pid):
+    """obligations discharged on the unchanged tree (written by bin/mkbaseline, committed): an obligation of this list
+    that can no longer be discharged is a regression of a proved clause"""
+    p = os.path.join(ROOT, "baseline", "obligations.json")
+    if not os.path.exists(p):
+        return set()
+    return set(json.load(open(p)).get(pid, []))
+
+
 def run_property(pid, tier, seed, jobs):
     t0 = time.time()
     _init()
@@ -79,15 +152,27 @@ def run_property(pid, tier, seed, jobs):
     keys = [k for k, c in reg.items() if not k.startswith("extern:") and not getattr(c, "trusted", False)
             and not getattr(c, "coarse", False) and pid in c.props]
     timeout_ms = 10000 if tier == "quick" else 60000
+    extras = tier == "thorough" and not os.environ.get("PYVC_NO_THOROUGH_EXTRAS")
+    if extras:
+        os.environ["PYVC_CROSSCHECK"] = "1"          # inherited by the forked verifier processes
     if not keys:
         print("no contracts serve %s" % pid)
         return 2
-    if jobs > 1 and len(keys) > 1:
-        with mp.get_context("fork").Pool(min(jobs, len(keys))) as pool:
-            results = pool.map(_verify_one, [(k, timeout_ms) for k in sorted(keys)], chunksize=1)
-    else:
-        results = [_verify_one((k, timeout_ms)) for k in sorted(keys)]
+    results = run_tasks([(k, timeout_ms) for k in sorted(keys)], jobs, wall_limit=1500 if tier == "quick" else 7200)
     known = [k for k in load_known() if k.get("property") == pid and k.get("status") == "open"]
+    baseline = load_baseline(pid)
+    # an obligation the solver left open: give its function a second, larger budget (one at a time, so that a
+    # loaded machine cannot turn a proof into an alarm) before concluding anything
+    retry = []
+    for r in results:
+        if r["status"] in ("ok", "undecided") and any(
+                o["failed"] and o["failed"][0]["status"] == "unknown" and pid in o["props"] for o in r["obligations"].values()):
+            retry.append(r["key"])
+    if retry:
+        again = run_tasks([(k, timeout_ms * 4) for k in retry], max(1, min(4, jobs)), wall_limit=3000)
+        by_key = {r["key"]: r for r in again}
+        results = [by_key.get(r["key"], r) if by_key.get(r["key"], r)["status"] != "error" else r for r in results]
+    regressed = []
     n_obl = n_ok = n_vcs = 0
     violations, undecided, errors, knowns = [], [], [], []
     samples = []
@@ -121,7 +206,10 @@ def run_property(pid, tier, seed, jobs):
                 continue
             f = o["failed"][0]
             if f["status"] == "unknown":
-                undecided.append((name, f["detail"]))
+                if name in baseline:
+                    regressed.append((name, o, r["key"]))
+                else:
+                    undecided.append((name, f["detail"]))
                 continue
             kf = [k for k in known if k.get("obligation") == name]
             if kf:
@@ -130,7 +218,7 @@ def run_property(pid, tier, seed, jobs):
                 violations.append((name, o, r["key"]))
     # ---- report
     rc = 0
-    replay_dir = os.path.join(ROOT, "out", "replay")
+    replay_dir = os.environ.get("PYVC_REPLAY_DIR") or os.path.join(ROOT, "out", "replay")
     os.makedirs(replay_dir, exist_ok=True)
     for name, kf in knowns:
         print("KNOWN-FINDING: property=%s %s [%s]" % (pid, kf.get("what", ""), name))
@@ -155,6 +243,52 @@ def run_property(pid, tier, seed, jobs):
         print("obligation failed: %s\n   %s" % (name, f["detail"]))
         print("VIOLATION property=%s replay=%s%s" % (pid, path, suffix))
         rc = 1
+    for name, o, key in regressed:
+        f = o["failed"][0]
+        import hashlib
+        path = os.path.join(replay_dir, "%s_%s.json" % (pid, hashlib.sha1(name.encode()).hexdigest()[:10]))
+        rep = None
+        try:
+            from pyvc.replay import try_replay
+            rep = try_replay(name, key, f, _G)
+        except Exception:
+            rep = {"reproduced": None, "note": "replay driver error: " + traceback.format_exc()[-800:]}
+        json.dump({"property": pid, "obligation": name, "kind": o["kind"], "function": key,
+                   "detail": "this obligation was discharged on the unchanged tree (baseline/obligations.json) and can no "
+                             "longer be discharged on the current source, also with four times the solver budget: the "
+                             "clause is no longer provable. " + (f["detail"] or ""),
+                   "goal": f["goal"], "solver": "z3 " + _z3v() + " / cvc5", "solver_output": "unknown (no model)", "model": None,
+                   "replay": rep}, open(path, "w"), indent=1)
+        suffix = "" if (rep and rep.get("reproduced")) else " no-failing-input-found"
+        print("obligation no longer provable: %s\n   proved on the unchanged tree; solver: %s" % (name, (f["detail"] or "")[:300]))
+        print("VIOLATION property=%s replay=%s%s" % (pid, path, suffix))
+        rc = 1
+    native, selftest = [], []
+    if extras:
+        from pyvc import thorough as T
+        import hashlib
+        for script, drc, out in T.run_native_drivers(pid):
+            native.append({"driver": script, "exit": drc})
+            if drc == 1:
+                # the clause is observed violated on the real code by CPython: a failing input, whatever the prover said
+                path = os.path.join(replay_dir, "%s_native_%s.json" % (pid, hashlib.sha1(script.encode()).hexdigest()[:8]))
+                json.dump({"property": pid, "obligation": "native driver replay/%s" % script, "kind": "NATIVE",
+                           "function": script, "detail": "the driver builds the scenario on the real code with CPython and "
+                           "observes the clause violated", "goal": "", "solver": "CPython", "solver_output": out[-3000:],
+                           "model": None, "replay": {"reproduced": True, "driver": script, "driver_exit": 1, "output": out}},
+                          open(path, "w"), indent=1)
+                if not any(k.get("driver") == script for k in known):
+                    print("native driver observes a violation: replay/%s\n%s" % (script, out[-600:]))
+                    print("VIOLATION property=%s replay=%s" % (pid, path))
+                    rc = 1
+            elif drc not in (0, 1):
+                undecided.append(("replay/" + script, "driver did not run to a verdict (exit %s)" % drc))
+        selftest = T.run_seed_selftest(pid)
+        for st_ in selftest:
+            if st_.get("applied") and not st_.get("detected"):
+                print("SELFTEST-MISS seed=%s (the check did not report the seeded change: rc=%s)" % (st_["seed"], st_.get("rc")))
+            elif st_.get("applied"):
+                print("SELFTEST-OK seed=%s detected (%d violation line(s))" % (st_["seed"], st_.get("violations", 0)))
     for k, why in errors:
         print("CHECKER-ERROR %s\n%s" % (k, why))
     for k, why in undecided:
@@ -187,18 +321,25 @@ def run_property(pid, tier, seed, jobs):
             "assumed_contracts": sorted(k for k in used if getattr(reg.get(k), "coarse", False)
                                         or getattr(reg.get(k), "trusted", False)),
             "undecided": [u[0] for u in undecided], "known_findings": [k[0] for k in knowns],
-            "violations": [v[0] for v in violations],
+            "native_drivers": native, "seed_selftest": selftest,
+            "regressed_obligations": [v[0] for v in regressed],
+            "crosscheck_cvc5": {"agree": sum(r.get("xc", {}).get("agree", 0) for r in results),
+                                "unknown": sum(r.get("xc", {}).get("unknown", 0) for r in results),
+                                "disagree": sum(r.get("xc", {}).get("disagree", 0) for r in results)},
+            "violations": [v[0] for v in violations] + [v[0] for v in regressed],
             "samples": samples or [{"note": "no discharged obligation"}],
             "explanation": "obligations are named <function>/<KIND>/<anchor>; one obligation = all path VCs of that "
                            "name unsat; generated from /repo/src on this run by symbolic execution of the ast",
         },
         "assumptions": _assumptions(pid),
-        "wall_s": round(wall, 2), "violations": len([v for v in violations]),
+        "wall_s": round(wall, 2), "violations": len(violations) + len(regressed),
     }
-    os.makedirs(os.path.join(ROOT, "evidence"), exist_ok=True)
-    json.dump(ev, open(os.path.join(ROOT, "evidence", "%s.json" % pid), "w"), indent=1)
+    evdir = os.environ.get("PYVC_EVIDENCE_DIR") or os.path.join(ROOT, "evidence")
+    os.makedirs(evdir, exist_ok=True)
+    json.dump(ev, open(os.path.join(evdir, "%s.json" % pid), "w"), indent=1)
     print("%s: %d obligations (%d path VCs), %d discharged, %d known findings, %d violations, %d undecided; %.1fs"
-          % (pid, n_obl, n_vcs, n_ok, len(knowns), len(violations), len(undecided), wall))
+          % (pid, n_obl, n_vcs, n_ok, len(knowns), len(violations) + len(regressed), len(undecided), wall))
+    _G["last_discharged"] = sorted(n for r in results for n, o in r["obligations"].items() if not o["failed"] and pid in o["props"])
     return rc
 
 
@@ -225,7 +366,21 @@ def main():
     ap.add_argument("--tier", default=os.environ.get("VERIF_TIER", "quick"))
     ap.add_argument("--jobs", type=int, default=min(16, os.cpu_count() or 4))
     ap.add_argument("--replay")
+    ap.add_argument("--mkbaseline", action="store_true", help="(development) record the discharged obligations of every claimed property")
     a = ap.parse_args()
+    if a.mkbaseline:
+        from specs.manifest_table import CHECKS
+        out = {}
+        for pid in sorted(CHECKS):
+            rc = run_property(pid, "quick", 0, a.jobs)
+            if rc != 0:
+                print("baseline not written: %s exits %d" % (pid, rc))
+                sys.exit(3)
+            out[pid] = _G["last_discharged"]
+        os.makedirs(os.path.join(ROOT, "baseline"), exist_ok=True)
+        json.dump(out, open(os.path.join(ROOT, "baseline", "obligations.json"), "w"), indent=0)
+        print("baseline written: %d obligations" % sum(len(v) for v in out.values()))
+        sys.exit(0)
     seed = int(os.environ.get("VERIF_SEED", "0") or 0)
     if a.replay:
         from pyvc.replay import show_replay
